@@ -53,7 +53,9 @@ package dht
 
 //@ func dht.crcIP
 //@   requires ip-length: len(ip) == 4 || len(ip) == 16
-//@   ensures bep42: result == old(bep42crc(ip, rand))
+//@   ensures bep42-v4: len(ip) == 4 ==> result == old(bep42crc(ip, rand))
+//@   ensures bep42-mapped: len(ip) == 16 && mapped4(ip) ==> result == old(bep42crc(ip, rand))
+//@   ensures bep42-v6: len(ip) == 16 && !mapped4(ip) ==> result == old(bep42crc(ip, rand))
 //@   callsite dht.maskForIP copy-v4: len(ip) == 4 ==> len($ip) == 4 && $ip[0] == ip[0] && $ip[1] == ip[1] && $ip[2] == ip[2] && $ip[3] == ip[3]
 //@   callsite dht.maskForIP copy-mapped: mapped4(ip) ==> len($ip) == 4 && $ip[0] == ip[12] && $ip[1] == ip[13] && $ip[2] == ip[14] && $ip[3] == ip[15]
 //@   callsite dht.maskForIP copy-v6: len(ip) == 16 && !mapped4(ip) ==> len($ip) == 16 && (forall k int :: 0 <= k && k < 16 ==> $ip[k] == ip[k])
